@@ -17,21 +17,35 @@ class Unknown(Exception):
 
 
 # --------------------------------------------------------------------------- coefficients
+def _n(v):
+    """canonical number: int when integral, else Fraction."""
+    if type(v) is int: return v
+    if isinstance(v, Fr): return v.numerator if v.denominator == 1 else v
+    if isinstance(v, int): return int(v)
+    f = Fr(v)
+    return f.numerator if f.denominator == 1 else f
+
+
 class C:
     __slots__ = ("re", "im")
 
     def __init__(s, re=0, im=0):
-        s.re = re if isinstance(re, Fr) else Fr(re)
-        s.im = im if isinstance(im, Fr) else Fr(im)
+        s.re = _n(re); s.im = _n(im)
 
-    def __add__(s, o): return C(s.re + o.re, s.im + o.im)
-    def __mul__(s, o): return C(s.re * o.re - s.im * o.im, s.re * o.im + s.im * o.re)
+    def __add__(s, o):
+        if s.im == 0 and o.im == 0: return C(s.re + o.re)
+        return C(s.re + o.re, s.im + o.im)
+
+    def __mul__(s, o):
+        if s.im == 0 and o.im == 0: return C(s.re * o.re)
+        return C(s.re * o.re - s.im * o.im, s.re * o.im + s.im * o.re)
+
     def __neg__(s): return C(-s.re, -s.im)
-    def conj(s): return C(s.re, -s.im)
+    def conj(s): return C(s.re, -s.im) if s.im != 0 else s
     def iszero(s): return s.re == 0 and s.im == 0
 
     def inv(s):
-        d = s.re * s.re + s.im * s.im
+        d = Fr(s.re * s.re + s.im * s.im)
         if d == 0:
             raise Unknown("division by zero coefficient")
         return C(s.re / d, -s.im / d)
@@ -154,7 +168,7 @@ def num_atom(p):
 
 # --------------------------------------------------------------------------- polynomials
 def mono(d):
-    return tuple(sorted(((a, e) for a, e in d.items() if e != 0), key=lambda t: t[0].key))
+    return tuple(sorted(((a, _n(e)) for a, e in d.items() if e != 0), key=lambda t: t[0].key))
 
 
 M1 = ()
@@ -178,9 +192,9 @@ class Poly:
             e = d[a]
             if e == 0:
                 del d[a]; continue
-            if a.tag == "num" and e.denominator == 1:
+            if a.tag == "num" and (type(e) is int or e.denominator == 1):
                 coef = coef * C(Fr(a.name) ** int(e)); del d[a]
-            elif a.tag == "pa" and e.denominator == 1 and e > 0:
+            elif a.tag == "pa" and (type(e) is int or e.denominator == 1) and e > 0:
                 extra.append((a.args[0], int(e))); del d[a]
         if extra:
             p = Poly({mono(d): coef})
@@ -318,8 +332,8 @@ class X:
 
     def __init__(s, coef=ONE, mono_=None, prims=None):
         s.c = coef
-        s.m = {a: e for a, e in (mono_ or {}).items() if e != 0}
-        s.p = {k: v for k, v in (prims or {}).items() if v[1] != 0}
+        s.m = {a: _n(e) for a, e in (mono_ or {}).items() if e != 0}
+        s.p = {k: (v[0], _n(v[1])) for k, v in (prims or {}).items() if v[1] != 0}
         s._rat = None; s._ks = None
         if s.c.iszero():
             s.m = {}; s.p = {}
@@ -554,7 +568,13 @@ class X:
 
     def subst(s, mapping):
         """mapping: variable name -> X.  Capture-avoiding (bound names are canonical)."""
-        if not mapping or not (s.fv() & set(mapping)): return s
+        if not mapping: return s
+        fvs = s.fv()
+        mapping = {k: v for k, v in mapping.items() if k in fvs}
+        if not mapping: return s
+        ren = _as_rename(mapping)
+        if ren is not None:
+            return _rename_x(s, ren, {})
         return s.map_atoms(lambda a: atom_subst(a, mapping))
 
     def degree_in(s, scales):
@@ -562,6 +582,87 @@ class X:
         returns Fraction or raises Unknown if not homogeneous."""
         n, d = s.rational()
         return _poly_degree(n, scales) - _poly_degree(d, scales)
+
+
+def _as_rename(mapping):
+    """mapping whose values are all plain variables -> {old name: new Atom}; else None."""
+    out = {}
+    for k, v in mapping.items():
+        if not isinstance(v, X) or v.p or len(v.m) != 1 or not (v.c == ONE): return None
+        (a, e), = v.m.items()
+        if e != 1 or a.tag != "v": return None
+        out[k] = a
+    # injective and not clashing with remaining free names is the caller's business (fresh names)
+    if len({a.key for a in out.values()}) != len(out): return None
+    return out
+
+
+def _rename_atom(a, ren, memo):
+    if not (a.fv & set(ren)): return a
+    r = memo.get(a.key)
+    if r is not None: return r
+    if a.tag == "v":
+        r = ren[a.name]
+    elif a.tag == "conj":
+        r = Atom("conj", None, (_rename_atom(a.args[0], ren, memo),), "complex")
+    elif a.tag == "pa":
+        np_ = _rename_poly(a.args[0], ren, memo)
+        r = poly_atom(np_)
+    elif a.tag == "sum":
+        cnt, body = a.args
+        rr = {k: v for k, v in ren.items() if k != a.name}
+        if any(v.name == a.name for v in rr.values()):
+            return None
+        r = Atom("sum", a.name, (_rename_x(cnt, rr, {}), _rename_x(body, rr, {})), a.kind)
+    else:
+        args = []
+        for g in a.args:
+            if isinstance(g, X): args.append(_rename_x(g, ren, memo))
+            elif isinstance(g, Atom): args.append(_rename_atom(g, ren, memo))
+            else: args.append(g)
+        if a.tag == "fn" and a.name in ("cis", "cos", "sin", "arcsin", "min", "max"):
+            return None      # sign / order canonicalisation may change: take the slow path
+        r = Atom(a.tag, a.name, tuple(args), a.kind)
+    memo[a.key] = r
+    return r
+
+
+class _SlowPath(Exception):
+    pass
+
+
+def _rename_poly(p, ren, memo):
+    q = Poly()
+    for m, c in p.t.items():
+        d = {}
+        for a, e in m:
+            na = _rename_atom(a, ren, memo)
+            if na is None: raise _SlowPath()
+            d[na] = d.get(na, 0) + e
+        q._add(d, c)
+    return q
+
+
+def _rename_x(x, ren, memo):
+    ren = {k: v for k, v in ren.items() if k in x.fv()}
+    if not ren: return x
+    try:
+        m = {}
+        for a, e in x.m.items():
+            na = _rename_atom(a, ren, memo)
+            if na is None: raise _SlowPath()
+            m[na] = m.get(na, 0) + e
+        p = {}
+        for k, (pl, e) in x.p.items():
+            npl = _rename_poly(pl, ren, memo)
+            cc, cm, prim = content(npl) if len(npl.t) > 1 else (None, None, None)
+            if cc is None or cc != 1 or cm: raise _SlowPath()
+            kk = prim.key()
+            p[kk] = (prim, p[kk][1] + e) if kk in p else (prim, e)
+        return X(x.c, m, p)
+    except _SlowPath:
+        mp = {k: X.atom(v) for k, v in ren.items()}
+        return x.map_atoms(lambda a: atom_subst(a, mp))
 
 
 def _poly_degree(p, scales):
@@ -703,6 +804,11 @@ def mk_sum(var, count, body):
     if body.iszero(): return X(ZERO)
     if var not in body.fv():
         return count * body
+    ci = count.as_int()
+    if ci is not None and 0 <= ci <= 8:
+        res = X(ZERO)
+        for i in range(ci): res = res + body.subst({var: X.const(i)})
+        return res
     n, d = body.rational()
     if var in d.fv():
         return _sum_atom(var, count, body)
